@@ -11,10 +11,10 @@ TRUSTED = [
     'vf symbolic executor (/verif/vf): encoding of the Python subset (DESIGN 2.2)',
     'z3 5.1 (API + z3-new CLI), cvc5 1.0.3 (strings)',
 ]
-ASSUMPTIONS = ['list.sort(key, reverse) is a permutation ordered by key (assumed, audited)', 'lexicographic order of str(datetime.utcnow()) is chronological (assumed; audited on boundary pairs in the thorough tier)', 'snapshots have distinct timestamps (premise)', 're.search is a deterministic function of (pattern, string)', 'the column formatting of list_snapshots/list_files (ljust/center/bytes_to_human) is NOT under contract: covered only by the bounded stand-in when present']
+ASSUMPTIONS = ['list.sort(key, reverse) is a permutation ordered by key (assumed, audited)', 'lexicographic order of str(datetime.utcnow()) is chronological (assumed; audited on boundary pairs in the thorough tier)', 'snapshots have distinct timestamps (premise)', 're.search is a deterministic function of (pattern, string)', 'listing rows: the cell put into row[column] is under contract (specs/cells.py: loop body extracted every run) with the column getters under an ASSUMED contract (an arbitrary optional natural number / optional string comes back); loading, sorting, header and ljust/center padding of the finished table are not under contract (bounded stand-in C15.e2e)']
 MANIFEST = {
     'text': 'Deductive proof that restore plans only readable bodies, newest first, that a path is planned at its first (newest) occurrence only if it matches the file filter and later occurrences touch nothing, that the snapshot filter is applied to the printed name, and that delete compares the same name and refuses unknown names before any deletion.',
-    'note': 'Trusted: vf engine, SMT solvers. Listing row formatting is outside the proved part.',
+    'note': 'Trusted: vf engine, SMT solvers. Of the listings, the value placed in each cell is proved (getters assumed); padding / header / order of rows are bounded only.',
     'technique': 'contract-based deductive verification: sidecar contracts + loop invariants on the real functions, VCs by symbolic execution of the AST, discharged by z3/cvc5',
     'design_ref': 'DESIGN.md 6/C15',
 }
